@@ -812,6 +812,10 @@ class Interp(seq_detached.DetachedMixin, S.SeqRun):
                 if self.view.objs[mid].deleted:
                     n += 1
                     self._note_keys_released(self.schema.by_name[self.view.objs[mid].ent], vals)
+                    o = self.view.objs[mid]
+                    if mid != mo.mid and o.stored and o.pk is not None:
+                        # deleted by the cascade of this call: its row has to be gone when the transaction commits
+                        self.cascaded.add((o.ent, o.pk, desc))
             if n >= 2:
                 self.probe('cascade_deleted_ge_2')
             if n >= 3:
@@ -829,6 +833,46 @@ class Interp(seq_detached.DetachedMixin, S.SeqRun):
                           '%s was refused (%s) although every dependent in its way cascades or can be unlinked'
                           % (desc, str(res)[:160]))
         return st
+
+    def op_del_ref(self, a, b, c):
+        """delete an object the session knows only as a reference: a stored row that refers to it is fetched, the
+        reference attribute is navigated (a bare object, nothing but its key in memory) and delete() is called on
+        that.  Cascade, unlinking and refusal have to come out as for a loaded object (C15, C12, C13)."""
+        r = Rng(0, 'del_ref', a, b, c)
+        stored = [o for o in self.live_sorted() if o.stored and o.pk is not None]
+        cands = []
+        for X in stored:
+            if X.mid in self.handles:
+                continue
+            for R in stored:
+                if R.mid == X.mid:
+                    continue
+                for ra in self.schema.by_name[R.ent].to_ones():
+                    if getattr(self.E[R.ent], ra.name).columns and self.view.get_one(ra, R.mid) == X.mid:
+                        cands.append((X, R, ra))
+        if not cands:
+            return None
+        # an object with a one-to-one partner more often: that is where the delete rules have most to do
+        rich = [t for t in cands if any(not ta.is_set and not ta.reverse.is_set and self.view.get_one(ta, t[0].mid) is not None
+                                        for ta in self.schema.by_name[t[0].ent].to_ones())]
+        pool_ = rich if (rich and r.chance(0.7)) else cands
+        X, R, ra = pool_[r.below(len(pool_))]
+        if R.mid not in self.handles:
+            P = self.E[R.ent]
+            ok, rh = self.read('fetch %s%r' % (R.ent, R.pk), lambda: P[R.pk[0] if len(R.pk) == 1 else R.pk])
+            if not ok:
+                return None
+            self.register(R.mid, rh)
+        rh = self.handles[R.mid]
+        if X.mid in self.handles:
+            return None
+        ok, h = self.read('navigate %s#%d.%s' % (R.ent, R.mid, ra.name), lambda: getattr(rh, ra.name))
+        if not ok or h is None:
+            return None
+        self.register(X.mid, h)
+        self.probe('seed_reached_by_navigation')
+        self.probe('delete_of_bare_reference')
+        return self.op_del_of(self.view.objs[X.mid])
 
     def op_fail_probe(self, a, b, c):
         """pending change(s) -> a call the rules refuse -> look at everything the call touched.  The refused call
@@ -2013,6 +2057,15 @@ class Interp(seq_detached.DetachedMixin, S.SeqRun):
             if o.deleted:
                 pass
         same = self.compare_db(self.committed, 'C09', 'committed-state-differs', when)
+        if not same and self.cascaded:
+            # C15: what a delete took with it by cascade must not survive the commit
+            got_e = self.dump()[0]
+            for ent, pk, desc in sorted(self.cascaded, key=repr):
+                if pk in got_e.get(ent, {}) and not any(x.pk == pk for x in self.committed.live(ent)):
+                    self.viol('C15', 'cascaded-row-left-in-database', ent,
+                              '%s deleted %s%r by cascade (rule: cascade_delete / required dependent), the transaction '
+                              'committed and the row is still there' % (desc, ent, pk))
+        self.cascaded = set()
         if not same and getattr(self, 'cycle_flushed', False):
             # C16: a reference cycle among new objects that no statement order resolves has to be reported;
             # here the flush reported nothing and what was committed is not what the session held
@@ -2042,6 +2095,7 @@ class Interp(seq_detached.DetachedMixin, S.SeqRun):
         self.session_clean = True
         self.fault_fired_in_session = False
         self.cycle_flushed = False
+        self.cascaded = set()
 
     # ------------------------------------------------------------------ one session
     def run_session(self, si, sess):
@@ -2060,6 +2114,7 @@ class Interp(seq_detached.DetachedMixin, S.SeqRun):
         self.fault_fired_in_session = False
         self.blind = False
         self.peer = None
+        self.cascaded = set()
         self.stop_session = False
         self.cycle_flushed = False
         self.cycle_error_seen = False
@@ -2234,6 +2289,8 @@ class Interp(seq_detached.DetachedMixin, S.SeqRun):
             self.op_new_rawfk(a, b, c)
         elif name == 'del':
             self.op_del(a, b, c)
+        elif name == 'del_ref':
+            self.op_del_ref(a, b, c)
         elif name == 'bulk_del':
             # (inside a ddl session SQLite's foreign keys are switched off on purpose: no ON DELETE actions there)
             if not self.knobs.get('hook_mode') and not self.cur_session_opts.get('ddl'):
